@@ -5,11 +5,11 @@ from fractions import Fraction
 
 import numpy as np
 
-from . import common
+from . import common, c16_calls
 from .common import Corr, f2hex, hex2f, frac2s, flist, parse_list
 
 ID = "C16"
-LEAN_MODULES = ["TempestVerif.Props.C16"]
+LEAN_MODULES = ["TempestVerif.Props.C16", "TempestVerif.Props.C16Vec", "TempestVerif.Props.C16Py", "TempestVerif.Props.C16Acc"]
 RULE = ("generated points (d=1..5, 1-D and 2-D arrays) x index lists for periodic/reflective (empty, None, all, duplicates in either list, "
         "reversed order, and - in ~12% of the cases - an index in BOTH lists, which the functions accept although SamplerConfig rejects it); "
         "regime Q: dyadic rationals whose float image is exact, compared exactly with the Rat model; "
@@ -17,20 +17,38 @@ RULE = ("generated points (d=1..5, 1-D and 2-D arrays) x index lists for periodi
         "2^52..2^64, 1e300, random bit patterns) compared bit-for-bit with the Float model. "
         "Suite property-F runs the property's own exact oracle (untouched bits, range, exact fold within 2^-52, idempotence "
         "identifying the periodic end points, bounds check = all remaining coordinates in [0,1]) on the REAL code for every regime-F case. "
-        "Non-trivial = some designated coordinate lies outside [0,1).")
+        "Non-trivial = some designated coordinate lies outside [0,1). "
+        "Second pass - suites pycall-Q/F/S: WHOLE calls (1-D, 2-D with 1 walker, 2-4 walkers, 0 walkers; periodic/reflective given as None, "
+        "list, tuple, int64/int32/uint8/read-only arrays, range, empty float64 array; u C-contiguous, Fortran, strided, transposed view, "
+        "read-only; float32 input in regime S) against Model/BoundaryPy.lean (None handling, column-at-a-time updates, early exit and "
+        "scalar-vs-vector result of check_bounds); result shape and dtype compared too. Suite property-S: the property oracle on float32 input. "
+        "Suites callsite-rwm/tpcn: ONE iteration of the real RWMRunner/TPCNRunner with taped normal draws (n_walkers 1..4, adversarial "
+        "increments); the recorded raw proposals go through the model `proposeAll` and must give, bit for bit, the points handed to "
+        "prior_transform and the in_bounds flags; rejected walkers must not move (fix 9001dc4).")
 MODELLED = ["numpy float remainder `x % 1.0` is modelled as x - floor x (identical for every finite double; checked bit-for-bit here)",
             "NaN / +-inf inputs are outside the statement and not generated",
             "H_round (used only by the C16_round_* theorems): binary64 subtraction is the exact difference followed by a monotone, "
             "idempotent rounding that fixes 0 and 1; np.floor and the parity test np.mod(n, 2.0) == 0 are exact on finite doubles "
             "(Lemmas/ScRound.lean `Rounding`; not discharged by a proof about IEEE-754 - the bit-exact suite and property-F check its consequences)",
-            "the passage from the one-coordinate pushforward identity (C16_periodic_pushforward / C16_reflective_pushforward, proved) to the "
-            "d-dimensional one is not proved: on the whole vector only the symmetry of the preimage sum Kvec is (C16_fold_vector_symmetric)"]
-ASSUMPTIONS = ["index lists contain valid non-negative indices (SamplerConfig.validate enforces 0 <= i < n_dim)"]
+            "float32 input (outside the statement's quantifier, accepted by the code): numpy keeps the arithmetic in binary32 (NEP 50); modelled by "
+            "the Sc Float32 instance of Model/BoundaryPy.lean, compared bit for bit (pycall-S); binary32 is one more Rounding of H_round",
+            "the d-dimensional pushforward / reversibility theorems (Props/C16Vec.lean) need the increment density to be sign-invariant in the "
+            "purely reflective coordinates (SignInv; sharp - F21 is the counterexample for correlated covariances); that the sampler's density "
+            "has this invariance is C03's clause, not assumed here for the real code"]
+ASSUMPTIONS = ["index lists contain valid non-negative indices, no index in both lists (SamplerConfig.__post_init__ enforces 0 <= i < n_dim and "
+               "disjointness: config.py:158-182; the range and overlap rules are the generated rules `.allIdx .periodic .le 0 .lt .n_dim`, "
+               "`.allIdx .reflective ...`, `.overlap .periodic .reflective` of Gen/Validate.lean (C18 owns the validation); suite index-validation "
+               "checks on every run that the real SamplerConfig accepts no other list). The two functions are nevertheless exercised with an index "
+               "in both lists and with duplicates.",
+               "indices are ints, not bools: numpy reads u[..., True] as a mask (every coordinate wrapped) while check_bounds reads True as index 1; "
+               "the two functions are unchanged, the assumption is discharged by the validation since /repo b8d82fc (`isinstance(i, int) and not "
+               "isinstance(i, bool) and 0 <= i < n_dim`; found by this audit, F-number assigned by the coordinator) and checked on every run by suite "
+               "index-validation (bool entries generated for SamplerConfig only, never for the two functions)"]
 
 
-def _impl(per, refl, u):
+def _impl(per, refl, u, dtype=float):
     from tempest.mcmc import apply_boundary_conditions, check_bounds
-    a = np.array(u, dtype=float)
+    a = np.array(u, dtype=dtype)
     p = None if per is None else np.array(per, dtype=int)
     r = None if refl is None else np.array(refl, dtype=int)
     with warnings.catch_warnings():
@@ -55,6 +73,10 @@ def adversarial():
             xs += [b, -b, b + 1.0, b - 1.0, -(b - 1.0), math.nextafter(b, 0.0), math.nextafter(b, math.inf), b + 2.0 ** (e - 51)]
         # tiny negatives: x % 1.0 == 1.0 exactly (the periodic end point the statement identifies with 0)
         xs += [-2.0 ** -60, -2.0 ** -54, -1e-17, -1e-30, -1e-20, -1e-200]
+        # huge integers: odd ones exist only below 2^53; everything from 2^53 on is even; 2^63.. does not fit int64
+        xs += [2.0 ** 53 - 1.0, -(2.0 ** 53 - 1.0), 2.0 ** 53 + 2.0, 2.0 ** 52 + 1.0, -(2.0 ** 52 + 1.0), 2.0 ** 51 + 1.0,
+               2.0 ** 62 + 2.0 ** 10, 2.0 ** 63 + 2.0 ** 11, -(2.0 ** 63), 2.0 ** 1023, -(2.0 ** 1023), 1.0 - 2.0 ** -53, -(1.0 - 2.0 ** -53),
+               2.0 - 2.0 ** -52, -0.0]
         xs += [1e300, -1e300, 1.7976931348623157e308, -1.7976931348623157e308, 4503599627370497.5, -4503599627370495.5,
                2.0 ** 51 + 0.5, -(2.0 ** 51 + 1.5), 9007199254740993.0, 1e16 + 2, 3.0000000000000004, 1.9999999999999998]
         ADVERSARIAL = xs
@@ -131,10 +153,25 @@ def correspond(tier):
                 fl = [[_rand_double(rng) for _ in range(d)] for _ in range(rows)]
                 pts = fl
             arr = fl[0] if rows == 1 else fl
-            a, v, cb0, cb1 = _impl(per, refl, arr)
+            try:
+                a, v, cb0, cb1 = _impl(per, refl, arr)
+            except Exception as ex:  # the model runs on every such input
+                c.case((per, refl, [[f2hex(x) for x in row] for row in fl]), True)
+                c.disagree(input=f"per={per} refl={refl} u={arr}", impl=f"raised {type(ex).__name__}: {ex}", model="runs",
+                           point=[float(x) for x in fl[0]], per=per, refl=refl, rows=[[float(x) for x in r] for r in fl],
+                           nd=1 if rows == 1 else 2)
+                if c.stats.get("disagreements", 0) >= 20:
+                    break
+                continue
             v2 = np.atleast_2d(v)
             cb0 = np.atleast_1d(cb0)
             cb1 = np.atleast_1d(cb1)
+            if v2.shape != (rows, d) or cb0.shape != (rows,) or cb1.shape != (rows,):
+                c.case((per, refl, [[f2hex(x) for x in row] for row in fl]), True)
+                c.disagree(input=f"per={per} refl={refl} u={arr}", impl=f"result shape {v2.shape}, check shapes {cb0.shape} {cb1.shape}",
+                           model=f"({rows}, {d}) and one flag per row", point=[float(x) for x in fl[0]], per=per, refl=refl,
+                           rows=[[float(x) for x in r] for r in fl])
+                continue
             for r in range(rows):
                 enc = frac2s if regime == "Q" else f2hex
                 lines.append(f"bc.{regime} per={flist(per or [], str)} refl={flist(refl or [], str)} u={flist(pts[r], enc)}")
@@ -176,7 +213,36 @@ def correspond(tier):
         out.append(c)
         if regime == "F":
             out.append(_property_suite(prop_cases))
+    gens = {"rand_double": _rand_double, "rand_dyadic": _rand_dyadic, "subsets": _subsets}
+    out += c16_calls.pycall_suites(tier, gens)
+    out.append(_property_suite_f32(tier))
+    out += c16_calls.callsite_suites(tier, gens)
+    out.append(c16_calls.validation_suite(tier))
     return out
+
+
+def _property_suite_f32(tier):
+    """the property's own oracle on the real code for float32 input (the code keeps binary32; tolerance 2^-23)"""
+    c = Corr("property-S", "exact oracle on the real code, float32 input (no model involved)")
+    rng = common.rng_for("C16.propS")
+    for _ in range(800 if tier == "quick" else 20000):
+        d = rng.randint(1, 5)
+        per, refl = _subsets(rng, d)
+        row = [c16_calls.rand_f32(rng, _rand_double) for _ in range(d)]
+        try:
+            msg = oracle(per, refl, row, np.float32)
+            _, v, _, _ = _impl(per, refl, row, np.float32)
+        except Exception as ex:  # noqa
+            msg, v = f"raised {type(ex).__name__}: {ex}", np.array([], dtype=np.float32)
+        for i, y in enumerate(np.asarray(v).tolist()):
+            if i in set(per or []) and y == 1.0:
+                c.count("periodic_hits_one")
+        c.count("result_dtype_" + str(np.asarray(v).dtype))
+        c.case((per, refl, [c16_calls.f32hex(x) for x in row]), _nontrivial(per, refl, [[float(x) for x in row]]))
+        if msg:
+            c.disagree(input=str((per, refl)), impl=msg, model="property oracle (float32)",
+                       point=[float(x) for x in row], per=per, refl=refl, f32=True)
+    return c
 
 
 def _property_suite(prop_cases):
@@ -186,12 +252,15 @@ def _property_suite(prop_cases):
         per_s, refl_s = set(per or []), set(refl or [])
         bad = None
         for row in fl:
-            msg = oracle(per, refl, row)
+            try:
+                msg = oracle(per, refl, row)
+                # end-point statistics (what the clause "identifying the periodic end points" is about)
+                _, v, _, _ = _impl(per, refl, row)
+                _, v2, _, _ = _impl(per, refl, v.tolist())
+            except Exception as ex:  # noqa
+                msg, v, v2 = f"raised {type(ex).__name__}: {ex}", np.array([]), np.array([])
             if msg and bad is None:
                 bad = (row, msg)
-            # end-point statistics (what the clause "identifying the periodic end points" is about)
-            _, v, _, _ = _impl(per, refl, row)
-            _, v2, _, _ = _impl(per, refl, v.tolist())
             for i, (y, z) in enumerate(zip(v.tolist(), v2.tolist())):
                 if i in per_s and y == 1.0:
                     c.count("periodic_hits_one")
@@ -214,13 +283,11 @@ def _tri(q):
     return abs(q - 2 * n)
 
 
-def oracle(per, refl, pt):
-    """returns a description of the violation on the real code, or None"""
-    a, v, cb0, cb1 = _impl(per, refl, pt)
+def _oracle_core(per, refl, a_row, v_row, cb0, v2_row, eps, hx):
     per_s, refl_s = set(per or []), set(refl or [])
-    for i, (x, y) in enumerate(zip(a.tolist(), v.tolist())):
+    for i, (x, y) in enumerate(zip(a_row, v_row)):
         if i not in per_s and i not in refl_s:
-            if f2hex(x) != f2hex(y):
+            if hx(x) != hx(y):
                 return f"untouched coordinate {i} changed: {x!r} -> {y!r}"
             continue
         if not (0.0 <= y <= 1.0):
@@ -234,26 +301,108 @@ def oracle(per, refl, pt):
         # a wrap that rounds to exactly 1.0 may be wrapped again to 0.0 by a duplicate entry before the reflection)
         if i in per_s:
             err = min(err, abs(Fraction(y) - want - 1), abs(Fraction(y) - want + 1))
-        if err > Fraction(1, 2 ** 52):
+        if err > eps:
             return f"coordinate {i}: {x!r} -> {y!r}, exact fold is {float(want)!r}"
-    _, v2, _, _ = _impl(per, refl, v.tolist())
-    for i, (y, z) in enumerate(zip(v.tolist(), v2.tolist())):
+    for i, (y, z) in enumerate(zip(v_row, v2_row)):
         if y != z and not (i in per_s and {y, z} == {0.0, 1.0}):
             return f"not idempotent at coordinate {i}: {y!r} -> {z!r}"
-    strict = [i for i in range(len(pt)) if i not in per_s and i not in refl_s]
-    want_cb = all(0.0 <= a[i] <= 1.0 for i in strict)
+    strict = [i for i in range(len(a_row)) if i not in per_s and i not in refl_s]
+    want_cb = all(0.0 <= a_row[i] <= 1.0 for i in strict)
     if bool(cb0) != want_cb:
         return f"check_bounds={bool(cb0)} but strict coordinates {'are' if want_cb else 'are not'} all in [0,1]"
+    return None
+
+
+def _eps_hx(v):
+    if np.asarray(v).dtype == np.float64:
+        return Fraction(1, 2 ** 52), f2hex
+    return Fraction(1, 2 ** 23), c16_calls.f32hex
+
+
+def oracle(per, refl, pt, dtype=float):
+    """the property on ONE point through the 1-D call path of the real code: a description of the violation, or None"""
+    a, v, cb0, cb1 = _impl(per, refl, pt, dtype)
+    eps, hx = _eps_hx(v)
+    _, v2, _, _ = _impl(per, refl, v.tolist(), np.asarray(v).dtype)
+    if np.shape(v) != np.shape(a) or np.ndim(cb0) != 0:
+        return f"1-D input of shape {np.shape(a)}: result shape {np.shape(v)}, check_bounds shape {np.shape(cb0)}"
+    return _oracle_core(per, refl, a.tolist(), v.tolist(), cb0, v2.tolist(), eps, hx)
+
+
+def oracle2d(per, refl, rows, dtype=float):
+    """the property on every row of a 2-D array (shape (n_walkers, n_dim)) through the 2-D call path of the real code"""
+    a, v, cb0, cb1 = _impl(per, refl, rows, dtype)
+    if a.ndim != 2:
+        return None
+    eps, hx = _eps_hx(v)
+    if np.shape(v) != a.shape:
+        return f"2-D input of shape {a.shape}: result shape {np.shape(v)}"
+    try:
+        flags = np.broadcast_to(np.asarray(cb0), (a.shape[0],))
+    except ValueError:
+        return f"2-D input of shape {a.shape}: check_bounds result of shape {np.shape(cb0)} is not one flag per row"
+    _, v2, _, _ = _impl(per, refl, np.asarray(v).tolist(), np.asarray(v).dtype)
+    for r in range(a.shape[0]):
+        msg = _oracle_core(per, refl, a[r].tolist(), v[r].tolist(), flags[r], np.asarray(v2)[r].tolist(), eps, hx)
+        if msg:
+            return f"row {r}: {msg}"
     return None
 
 
 def search(tier, hints):
     found = []
     cands = []
+    f32_cands, site_cands, cands2 = [], [], []
     for h in hints:
-        if "point" in h:
-            cands.append((h.get("per"), h.get("refl"), h["point"]))
+        if "cfg" in h:
+            msg = c16_calls.config_oracle(h["cfg"], oracle)
+            if msg:
+                found.append({"what": msg, "cfg": h["cfg"]})
+        if "site" in h:
+            site_cands.append(h["site"])
+        for row in h.get("rows", []) or ([h["point"]] if "point" in h else []):
+            if len(row) > 0:
+                (f32_cands if h.get("f32") else cands).append((h.get("per"), h.get("refl"), row))
+        if len(h.get("rows", [])) >= 1 and h.get("nd", 2) == 2:
+            cands2.append((h.get("per"), h.get("refl"), h["rows"], np.float32 if h.get("f32") else float))
     rng = common.rng_for("C16.search")
+    for per, refl, pt in f32_cands:
+        try:
+            msg = oracle(per, refl, pt, np.float32)
+        except Exception as e:  # noqa
+            msg = f"raised {type(e).__name__}: {e}"
+        if msg:
+            found.append({"what": msg, "per": per, "refl": refl, "point": [float(x) for x in pt], "f32": True,
+                          "point_hex": [f2hex(x) for x in pt]})
+    for _ in range(600 if tier == "quick" else 20000):
+        d = rng.randint(1, 4)
+        per, refl = _subsets(rng, d)
+        cands2.append((per, refl, [[_rand_double(rng) for _ in range(d)] for _ in range(rng.randint(1, 4))], float))
+    for per, refl, rows, dt in cands2:
+        if len(found) >= 5:
+            break
+        try:
+            msg = oracle2d(per, refl, rows, dt)
+        except Exception as e:  # noqa
+            msg = f"raised {type(e).__name__}: {e}"
+        if msg:
+            found.append({"what": msg, "per": per, "refl": refl, "rows": [[float(x) for x in r] for r in rows],
+                          "rows_hex": [[f2hex(x) for x in r] for r in rows], "f32": dt is np.float32})
+    gens = {"rand_double": _rand_double, "rand_dyadic": _rand_dyadic, "subsets": _subsets}
+    for kind in ("rwm", "tpcn"):
+        for _ in range(150 if tier == "quick" else 3000):
+            site_cands.append(c16_calls._site_gen(rng, gens, kind, "F"))
+    for case in site_cands:
+        if len(found) >= 5:
+            break
+        try:
+            msg = c16_calls.site_oracle(case)
+        except Exception as e:  # noqa
+            msg = f"raised {type(e).__name__}: {e}"
+        if msg:
+            found.append({"what": msg, "site": case})
+    if len(found) >= 5:
+        return found[:5]
     for x in adversarial():
         cands.append(([0], None, [x, 0.5]))
         cands.append((None, [0], [x, 0.5]))
@@ -281,6 +430,18 @@ def replay(obj):
     if "witness" in f.get("replay", {}):
         from . import witnesses
         return witnesses.ALL[f["replay"]["witness"]]()
+    if "cfg" in f:
+        msg = c16_calls.config_oracle(f["cfg"], oracle)
+        return {"fails": msg is not None, "detail": msg}
+    if "site" in f:
+        msg = c16_calls.site_oracle(f["site"])
+        return {"fails": msg is not None, "detail": msg}
+    if "rows_hex" in f:
+        try:
+            msg = oracle2d(f.get("per"), f.get("refl"), [[hex2f(h) for h in r] for r in f["rows_hex"]], np.float32 if f.get("f32") else float)
+        except Exception as e:  # noqa
+            msg = f"raised {type(e).__name__}: {e}"
+        return {"fails": msg is not None, "detail": msg}
     pt = [hex2f(h) for h in f["point_hex"]]
-    msg = oracle(f.get("per"), f.get("refl"), pt)
+    msg = oracle(f.get("per"), f.get("refl"), pt, np.float32 if f.get("f32") else float)
     return {"fails": msg is not None, "detail": msg}
